@@ -45,6 +45,10 @@ BIN = ["+", "-", "*", "/", "%", "&", "|", "^", "<<", ">>", "<", "<=", ">", ">=",
 
 
 # ties between the function bodies translated from the Rust source on every run (Gen/Fns.lean) and the hand-written models
+THEOREM_MODULES.append("Yarel.Props.FnsTie.Ops")
+REQUIRED_THEOREMS += ["op_greater_tie", "op_less_tie", "op_subtract_tie", "op_multiply_tie", "op_divide_tie", "op_modulo_tie", "op_bitwise_and_tie",
+                      "op_bitwise_or_tie", "op_bitwise_xor_tie", "op_shift_left_tie", "op_shift_right_tie", "dispatch_covers_every_opcode",
+                      "dispatch_is_the_pinned_table"]
 THEOREM_MODULES.append("Yarel.Props.FnsTie.Compiler")
 REQUIRED_THEOREMS += ['precedence_from_discr', 'precedence_from_panics_iff', 'precedence_names_are_the_table']
 
